@@ -53,6 +53,20 @@ func (p c03) Run(c *core.Ctx) {
 		// requested for the first time while the component is being initialised
 		c.Count("init_lookups", AddInitLookups(c.Rng, sc, 0.4))
 	}
+	if c.Index%3 == 2 {
+		// components that reach into the graph through optional points only (by name or by type): when
+		// they are created first, a cycle is entered through a point whose failure would be tolerable
+		for x := 0; x < 1+c.Rng.Intn(2); x++ {
+			t := c.Rng.Intn(len(sc.Nodes))
+			e := g.AddRandomNode(plainAB, 0)
+			if c.Rng.Intn(3) > 0 {
+				g.EdgeByName(e, t, ",required=false", "iface")
+			} else if slots := g.FreeSlots(e, func(si world.SlotInfo) bool { return si.Kind == "sliceiface" && si.Iface != "any" }); len(slots) > 0 {
+				g.SetTag(e, slots[c.Rng.Intn(len(slots))], "wire", ",required=false")
+			}
+			c.Count("optional_entry_components", 1)
+		}
+	}
 	n := len(sc.Nodes)
 	selfReq := map[int]bool{}
 	for i := 0; i < n; i++ {
